@@ -55,18 +55,132 @@ import contextlib  # noqa: E402
 import signal  # noqa: E402
 
 
+IDLE_FRAC = 0.05        # of one core: below this, over a whole window, nothing is computing
+HARD_FACTOR = int(os.environ.get('VERIF_WALL_CAP_FACTOR', '10'))
+CPU_FACTOR = int(os.environ.get('VERIF_CPU_CAP_FACTOR', '6'))
+WATCHDOG = {'extended': 0, 'last_extensions': 0, 'last_verdict': None}
+
+
+def _tree_cpu(since, own0, seen):
+    """ CPU seconds (user + system) used since `since` by this process and by every descendant
+    that was started after it; monotone (a descendant that has gone keeps its last reading) """
+    t = os.times()
+    total = t.user + t.system - own0
+    try:
+        import psutil  # pylint: disable=import-outside-toplevel
+        for ch in psutil.Process().children(recursive=True):
+            try:
+                born = ch.create_time()
+                if born < since - 1:
+                    continue
+                ct = ch.cpu_times()
+                v = ct.user + ct.system
+                if v > seen.get((ch.pid, born), 0):
+                    seen[(ch.pid, born)] = v
+            except psutil.Error:
+                pass
+    except ImportError:
+        pass
+    return total + sum(seen.values())
+
+
 @contextlib.contextmanager
-def time_limit(seconds):
-    """ SIGALRM based watchdog around one call into the code under test """
-    def handler(_sig, _frm):
+def time_limit(seconds, progress=None):
+    """ SIGALRM based watchdog around one call into the code under test.
+
+    The wall-clock limit alone is NOT a verdict: how long a run takes depends on the machine
+    and on what else it is doing (a big multi-process hand-over that takes 9 - 17 s here took
+    more than 60 s on a freshly restored sandbox).  `CaseTimeout` is raised when the limit has
+    passed AND the run shows no sign of life over a whole look-back window (a quarter of the
+    limit): the optional `progress()` token (e.g. number of batches handed over) is unchanged
+    and the process tree has used less than IDLE_FRAC of one core (a searchkit run that waits
+    for ever polls: measured 0.2 - 1 %; one that works uses 100 % and more).  A run that is
+    alive gets another window, and another, until it comes back or reaches one of two
+    backstops: CPU_FACTOR x limit CPU-seconds consumed by the tree (a busy loop; CPU time does
+    not depend on the load of the machine) or HARD_FACTOR x limit of wall-clock time.  A run
+    that comes back in time never sees a signal before `limit - window`. """
+    seconds = int(seconds)
+    window = max(2, seconds // 4)
+    t0, wall0 = time.monotonic(), time.time()
+    ot = os.times()
+    own0 = ot.user + ot.system
+    seen = {}
+    st = {'last': None, 'ext': 0, 'stage': 0}
+    WATCHDOG['last_extensions'] = 0
+    WATCHDOG['last_verdict'] = None
+
+    def token():
+        if progress is None:
+            return None
+        try:
+            return progress()
+        except Exception:  # pylint: disable=broad-except
+            return None
+
+    def give_up():
+        # the verdict is final; what follows only gets control back.  Worker / manager
+        # processes first: the executor's and the manager's context exits, which the exception
+        # passes through, wait for them
+        st['stage'] = 1
+        kill_children()
+        signal.alarm(10)
         raise CaseTimeout()
+
+    def handler(_sig, _frm):
+        if st['stage']:
+            # still inside the block 10 s after CaseTimeout was raised: a `finally` of the code
+            # under test joins a helper thread that waits for a module-level lock which a
+            # killed worker held.  First free such locks, then raise again.
+            st['stage'] += 1
+            signal.alarm(10)
+            if st['stage'] == 2:
+                release_abandoned_locks()
+                return
+            raise CaseTimeout()
+        now = time.monotonic() - t0
+        cpu, tok = _tree_cpu(wall0, own0, seen), token()
+        last, st['last'] = st['last'], (cpu, tok, now)
+        if cpu >= CPU_FACTOR * seconds:
+            WATCHDOG['last_verdict'] = f'busy: {cpu:.0f} CPU-seconds used'
+            give_up()
+        if last is None or now < seconds - 0.5:
+            signal.alarm(window)            # first look: one window before the limit
+            return
+        alive = tok != last[1] or cpu - last[0] >= IDLE_FRAC * (now - last[2])
+        if alive and now < HARD_FACTOR * seconds:
+            st['ext'] += 1
+            WATCHDOG['extended'] += 1
+            WATCHDOG['last_extensions'] = st['ext']
+            signal.alarm(window)
+            return
+        WATCHDOG['last_verdict'] = (f'still working after {now:.0f} s' if alive else
+                                    f'no sign of life for {now - last[2]:.0f} s')
+        give_up()
     old = signal.signal(signal.SIGALRM, handler)
-    signal.alarm(int(seconds))
+    signal.alarm(max(1, seconds - window))
     try:
         yield
     finally:
         signal.alarm(0)
         signal.signal(signal.SIGALRM, old)
+
+
+def release_abandoned_locks():
+    """ after the children have been killed: module-level multiprocessing locks of the code
+    under test that are still held are released (their holder is gone, or is about to be
+    unwound) - what searchkit itself does when it finds its worker pool broken """
+    import multiprocessing.synchronize as ms  # pylint: disable=import-outside-toplevel
+    for name, mod in list(sys.modules.items()):
+        if not name.startswith('searchkit') or mod is None:
+            continue
+        for v in list(vars(mod).values()):
+            if isinstance(v, ms.Lock):
+                try:
+                    if not v.acquire(False):
+                        pass
+                    v.release()
+                except (ValueError, AssertionError, OSError):
+                    pass
 
 
 def kill_children():
